@@ -1,7 +1,6 @@
 package rules
 
 import (
-	"go/constant"
 	"go/token"
 	"go/types"
 	"strings"
@@ -69,23 +68,12 @@ func findPending(c *core.Ctx) *pendingFacts {
 	return p
 }
 
-// dropRecorders: functions of internal/workers that record a DroppedResult.
+// dropRecorders: functions of internal/workers that record a DroppedResult (role-based, see dropRecorderFns).
 func dropRecorders(c *core.Ctx) map[*ssa.Function]bool {
+	runner, _, _ := iterationRunner(c)
 	out := map[*ssa.Function]bool{}
-	dropped := resultConst(c, "DroppedResult")
-	for _, fn := range c.AllFuncs {
-		if core.RelPkg(fn) != "internal/workers" {
-			continue
-		}
-		for _, call := range an.AllCalls(fn) {
-			t := an.Callee(call)
-			if t == nil || !(isStatsRecord(t) || isMetricsIter(t)) {
-				continue
-			}
-			if k, ok := resultArg(call).(*ssa.Const); ok && k.Value != nil && constant.StringVal(k.Value) == dropped {
-				out[fn] = true
-			}
-		}
+	for _, f := range dropRecorderFns(c, nil, runner) {
+		out[f] = true
 	}
 	return out
 }
@@ -94,22 +82,34 @@ func dropRecorders(c *core.Ctx) map[*ssa.Function]bool {
 func limitPredicate(c *core.Ctx) *ssa.Function {
 	var found *ssa.Function
 	for _, fn := range c.AllFuncs {
-		if core.RelPkg(fn) != "internal/workers" || fn.Signature.Results().Len() != 1 {
+		if core.RelPkg(fn) != "internal/workers" || fn.Parent() != nil || fn.Signature.Results().Len() != 1 || fn.Signature.Params().Len() != 0 || fn.Signature.Recv() == nil {
 			continue
 		}
 		if b, ok := fn.Signature.Results().At(0).Type().(*types.Basic); !ok || b.Kind() != types.Bool {
 			continue
 		}
-		loads, cmp := false, false
-		for _, op := range an.AtomicOps([]*ssa.Function{fn}) {
-			if op.Op == "Load" && an.IsNamed(op.Call.Common().Args[0].(*ssa.FieldAddr).X.Type(), workersPkg, "PoolManager") {
-				loads = true
-			}
+		if !an.IsNamed(fn.Signature.Recv().Type(), workersPkg, "PoolManager") {
+			continue
 		}
-		an.Instrs(fn, func(in ssa.Instruction) {
-			if bo, ok := in.(*ssa.BinOp); ok && (bo.Op == token.GTR || bo.Op == token.GEQ || bo.Op == token.LSS || bo.Op == token.LEQ) {
-				if strings.Contains(an.D().Of(bo), "maxIterations") {
-					cmp = true
+		loads, cmp := false, false
+		an.Flatten(fn, 2, nil, func(e an.Event) {
+			if call := e.Call(); call != nil {
+				t := an.Callee(call)
+				if t != nil && t.Pkg != nil && t.Pkg.Pkg.Path() == "sync/atomic" && t.Name() == "Load" && len(call.Common().Args) > 0 {
+					if fa, ok := call.Common().Args[0].(*ssa.FieldAddr); ok && an.IsNamed(fa.X.Type(), workersPkg, "PoolManager") {
+						loads = true
+					}
+				}
+			}
+			if bo, ok := e.Instr.(*ssa.BinOp); ok && (bo.Op == token.GTR || bo.Op == token.GEQ || bo.Op == token.LSS || bo.Op == token.LEQ) {
+				for _, o := range []ssa.Value{bo.X, bo.Y} {
+					if f, owner := an.TerminalField(o); f != nil && an.IsNamed(owner, workersPkg, "PoolManager") && !an.IsNamed(f.Type(), "sync/atomic", "Uint64") {
+						if _, isConst := bo.X.(*ssa.Const); !isConst {
+							if _, isConst := bo.Y.(*ssa.Const); !isConst {
+								cmp = true
+							}
+						}
+					}
 				}
 			}
 		})
@@ -125,7 +125,7 @@ func c02(c *core.Ctx, r *core.Report) {
 		"(R2) supersede is one atomic Swap whose result is returned, take is one read-modify-write whose own result decides, nobody Loads then writes; " +
 		"(R3) the number of reported drops is the loop bound and the bound is the Swap result; the drop recorder has no other caller; " +
 		"(R4) on a successful take exactly one id is allocated and then exactly one of {run the iteration, limit path}; (R5) the limit path discards pending work silently before cancelling and never reaches the drop recorder; " +
-		"(R6) every reported drop is guarded by a negative limit test evaluated after the Swap; (R7) condition-variable discipline (no lost wake-up). " +
+		"(R6) every reported drop is guarded by a negative limit test evaluated after the Swap. The wake-up discipline of idle workers is decided under C04/C05 (a lost wake-up delays or drops work but still accounts for it). " +
 		"The full interleaving semantics of set/take/none is not decided."
 	r.NotDecided = []string{"behaviour of set/take/none under every interleaving (state-space question)", "liveness of workers"}
 	var pf *pendingFacts
@@ -241,6 +241,7 @@ func c02(c *core.Ctx, r *core.Report) {
 
 	var sender *ssa.Function
 	var dropCalls []ssa.CallInstruction
+	boundIsLocalSwap := map[*ssa.Function]bool{}
 	rule(r, "C02.R3", "drops are reported in a loop whose bound is the value the Swap returned; the drop recorder has no other caller", func() {
 		if pf == nil {
 			r.Undecided("anchor", "-", "pending counter not resolved")
@@ -266,74 +267,88 @@ func c02(c *core.Ctx, r *core.Report) {
 				continue
 			}
 			sender = fn
-			// the set call in this function
-			var setCall *ssa.Call
-			for _, sc := range an.AllCalls(fn) {
-				if t := an.Callee(sc); t != nil && pf.setFns[t] {
-					if v, ok := sc.(*ssa.Call); ok {
-						setCall = v
-					}
-				}
-			}
-			if setCall == nil {
-				r.Violation(key, an.Pos(c, call), "%s reports drops but does not supersede the pending counter itself: the count cannot be the Swap result", core.FuncName(fn))
-				continue
-			}
-			loop, _ := an.NaturalLoopOf(call.Block())
+			loop, head := an.NaturalLoopOf(call.Block())
 			if loop == nil {
-				// a single conditional report can only be right for bound 1
 				r.Violation(key, an.Pos(c, call), "drop report is not in a loop bounded by the Swap result")
 				continue
 			}
-			if an.OnCycleAvoiding(call, call.Block()) {
+			if an.OnCycleAvoiding(call, head) {
 				r.Violation(key, an.Pos(c, call), "drop report sits in a nested loop")
 				continue
 			}
-			// every If that keeps/enters the loop compares against the Swap result
-			okBound, n := true, 0
-			why := ""
+			// every comparison that enters / continues the loop has the same bound
+			var bounds []ssa.Value
+			okShape, why := true, ""
 			checkCond := func(cond ssa.Value) {
 				bo, ok := cond.(*ssa.BinOp)
 				if !ok {
-					okBound, why = false, "loop condition is "+an.D().Of(cond)
+					okShape, why = false, "loop condition is "+an.D().Of(cond)
 					return
 				}
-				n++
-				var bound ssa.Value
 				switch bo.Op {
 				case token.LSS:
-					bound = bo.Y
+					bounds = append(bounds, bo.Y)
 				case token.GTR:
-					bound = bo.X
+					bounds = append(bounds, bo.X)
 				default:
-					okBound, why = false, "loop condition uses "+bo.Op.String()
-					return
-				}
-				if an.Strip(bound) != ssa.Value(setCall) {
-					okBound, why = false, "loop bound is "+an.D().Of(bound)+", not the value returned by the Swap at "+an.Pos(c, setCall)
+					okShape, why = false, "loop condition uses "+bo.Op.String()
 				}
 			}
 			for b := range loop {
 				if iff, ok := b.Instrs[len(b.Instrs)-1].(*ssa.If); ok {
-					inT, inF := loop[b.Succs[0]], loop[b.Succs[1]]
-					if inT != inF {
+					if loop[b.Succs[0]] != loop[b.Succs[1]] {
 						checkCond(iff.Cond)
 					}
 				}
 			}
-			_, head := an.NaturalLoopOf(call.Block())
 			for _, p := range head.Preds {
 				if loop[p] {
 					continue
 				}
 				if iff, ok := p.Instrs[len(p.Instrs)-1].(*ssa.If); ok {
-					checkCond(iff.Cond)
+					if bo, isB := iff.Cond.(*ssa.BinOp); isB && (bo.Op == token.LSS || bo.Op == token.GTR) {
+						checkCond(iff.Cond)
+					}
 				}
 			}
-			if n == 0 {
-				okBound, why = false, "no bounding comparison found"
+			if len(bounds) == 0 {
+				okShape, why = false, "no bounding comparison found"
 			}
-			r.Check(okBound, key, an.Pos(c, call), "one drop per loop iteration, loop bounded by the Swap result "+an.D().Of(setCall), "the number of reported drops is not the Swap result: "+why)
+			var bound ssa.Value
+			for _, b := range bounds {
+				sb := stripAllocs(b)
+				if bound == nil {
+					bound = sb
+				} else if bound != sb {
+					okShape, why = false, "the loop is bounded by different values"
+				}
+			}
+			if !okShape {
+				r.Violation(key, an.Pos(c, call), "the number of reported drops is not the Swap result: %s", why)
+				continue
+			}
+			// the bound is the Swap result, directly or as a parameter fed with it at every call site
+			if isSwapResult(pf, bound, 3) {
+				boundIsLocalSwap[fn] = true
+				r.OK(key, an.Pos(c, call), "one drop per loop iteration, loop bounded by the Swap result %s", an.D().Of(bound))
+				continue
+			}
+			if p, isParam := bound.(*ssa.Parameter); isParam {
+				sites := an.CallSitesOf(c, fn)
+				okAll := len(sites) > 0
+				for _, cs := range sites {
+					arg := stripAllocs(cs.Common().Args[paramIdx(p)])
+					if !isSwapResult(pf, arg, 3) {
+						okAll = false
+						r.Violation(key, an.Pos(c, cs), "%s is asked to report %s drops, which is not the value the Swap returned", core.FuncName(fn), an.D().Of(arg))
+					}
+				}
+				if okAll {
+					r.OK(key, an.Pos(c, call), "loop bounded by parameter %s, which every caller feeds with the Swap result", p.Name())
+				}
+				continue
+			}
+			r.Violation(key, an.Pos(c, call), "the number of reported drops is bounded by %s, not by the value returned by the Swap: requests are reported dropped that were started (or the reverse)", an.D().Of(bound))
 		}
 	})
 
@@ -362,6 +377,13 @@ func c02(c *core.Ctx, r *core.Report) {
 					if iff, ok := ref.(*ssa.If); ok {
 						then = iff.Block().Succs[0]
 					}
+					if u, ok := ref.(*ssa.UnOp); ok && u.Op == token.NOT {
+						for _, r2 := range an.Referrers(u) {
+							if iff, ok := r2.(*ssa.If); ok {
+								then = iff.Block().Succs[1]
+							}
+						}
+					}
 				}
 				if then == nil {
 					r.Violation(key, an.Pos(c, call), "result of take is not branched on")
@@ -379,16 +401,19 @@ func c02(c *core.Ctx, r *core.Report) {
 					if t == runner {
 						return true
 					}
-					return t != nil && core.RelPkg(t) == "internal/workers" && callsCancelField(t)
+					if t == nil {
+						return isCancelFieldCall(ci)
+					}
+					return core.RelPkg(t) == "internal/workers" && callsCancelField(t)
 				}
 				ok := true
-				for _, e := range an.PathCountUntil(then.Instrs[0], an.CallWeight(isNext, 0), stop) {
+				for _, e := range an.PathCountUntil(then.Instrs[0], an.CallWeight(isNext, flatDepth), stop) {
 					if e.Count.Lo != 1 || e.Count.Hi != 1 {
 						ok = false
 						r.Violation(key+"-id", an.Pos(c, e.Instr), "NextIteration executed %s times between a successful take and this exit of the iteration", e.Count)
 					}
 				}
-				for _, e := range an.PathCountUntil(then.Instrs[0], an.CallWeight(isRunOrLimit, 0), stop) {
+				for _, e := range an.PathCountUntil(then.Instrs[0], an.CallWeight(isRunOrLimit, flatDepth), stop) {
 					if e.Count.Lo != 1 || e.Count.Hi != 1 {
 						ok = false
 						r.Violation(key+"-start", an.Pos(c, e.Instr), "after a successful take, {run iteration, limit path} executed %s times before this exit: the request is neither started once nor discarded", e.Count)
@@ -458,14 +483,14 @@ func c02(c *core.Ctx, r *core.Report) {
 			key := core.FuncName(fn) + "#drop-guard"
 			var setCall ssa.CallInstruction
 			for _, sc := range an.AllCalls(fn) {
-				if t := an.Callee(sc); t != nil && pf.setFns[t] {
+				if v, isV := sc.(ssa.Value); isV && isSwapResult(pf, v, 3) {
 					setCall = sc
 				}
 			}
 			ok, why := false, "no guard on "+core.FuncName(lim)
 			for _, g := range an.GuardsOf(call.Block()) {
 				gc, isCall := an.Strip(g.Cond).(*ssa.Call)
-				if !isCall || an.Callee(gc) != lim {
+				if !isCall || !isLimitPredicate(an.Callee(gc), lim) {
 					continue
 				}
 				if g.Polarity {
@@ -482,9 +507,6 @@ func c02(c *core.Ctx, r *core.Report) {
 		}
 	})
 
-	rule(r, "C02.R7", "condition-variable discipline: Wait in a loop re-checking the predicate under L; every write that can end the wait is followed on all paths by a Broadcast executed with L held", func() {
-		condDiscipline(c, r)
-	})
 }
 
 func isConst(v ssa.Value) bool { _, ok := v.(*ssa.Const); return ok }
@@ -527,4 +549,62 @@ func callsCancelField(fn *ssa.Function) bool {
 		}
 	}
 	return false
+}
+
+func paramIdx(p *ssa.Parameter) int {
+	for i, q := range p.Parent().Params {
+		if q == p {
+			return i
+		}
+	}
+	return -1
+}
+
+// isSwapResult: v is the value an atomic Swap on the pending counter returned, possibly handed back through
+// helper functions (each returning exactly that).
+func isSwapResult(pf *pendingFacts, v ssa.Value, depth int) bool {
+	v = stripAllocs(v)
+	call, ok := v.(*ssa.Call)
+	if !ok {
+		return false
+	}
+	for _, op := range pf.ops {
+		if op.Op == "Swap" && ssa.Value(op.Call.(*ssa.Call)) == v {
+			return true
+		}
+	}
+	t := an.Callee(call)
+	if t == nil || t.Blocks == nil || depth <= 0 || !core.InModule(t) {
+		return false
+	}
+	rets := an.Returns(t)
+	if len(rets) == 0 {
+		return false
+	}
+	for _, ret := range rets {
+		if len(ret.Results) != 1 || !isSwapResult(pf, ret.Results[0], depth-1) {
+			return false
+		}
+	}
+	return true
+}
+
+// isLimitPredicate: g is the limit predicate or a bool helper returning it.
+func isLimitPredicate(g, lim *ssa.Function) bool {
+	if g == nil {
+		return false
+	}
+	if g == lim {
+		return true
+	}
+	if g.Blocks == nil || !core.InModule(g) {
+		return false
+	}
+	for _, ret := range an.Returns(g) {
+		c, ok := an.Strip(ret.Results[0]).(*ssa.Call)
+		if !ok || an.Callee(c) != lim {
+			return false
+		}
+	}
+	return len(an.Returns(g)) > 0
 }
